@@ -203,6 +203,15 @@ def structural_mutants(spec, dy=True, tiny=False):
                     t = copy.deepcopy(sp)
                     t[sl] = {"p": "Sum", "q": {"f": "y", "kind": "lambda"}}
                     out.append(("child-type@%s" % "/".join(path + [sl]), setter(t)))
+                if sl == "value" and (sp.get(sl) is None or sp[sl]["p"] == "Count"):
+                    # bins that are containers of Counts instead of Counts (the specialised histogram classes cover both)
+                    for nm, child in (("sparse", {"p": "SparselyBin", "binWidth": 1.0, "origin": 0.0, "q": {"f": "y", "kind": "lambda"}, "value": None, "nanflow": None}),
+                                      ("categorize", {"p": "Categorize", "q": {"f": "s", "kind": "lambda"}, "value": None}),
+                                      ("bin", {"p": "Bin", "num": 2, "low": 0.0, "high": 2.0, "q": {"f": "y", "kind": "lambda"}, "value": None, "underflow": None,
+                                               "overflow": None, "nanflow": None})):
+                        t = copy.deepcopy(sp)
+                        t[sl] = child
+                        out.append(("child-container-%s@%s" % (nm, "/".join(path + [sl])), setter(t)))
 
     rec(spec, [], lambda new: new)
     return out
@@ -298,11 +307,11 @@ class C10(Scenario):
                    "operands are rebuilt from their recorded fills before every attempt, so one failed += cannot contaminate the next"]
     expected_faults = ["misdelivery"]
     expected_probes = ["nested_mismatch", "mismatch_under_empty_sparse", "acc_filled", "operand_reloaded", "tolerance_configured",
-                       "tiny_mismatch", "built_layer_count"]
+                       "tiny_mismatch", "built_layer_count", "absorbed_then_original_partner"]
 
     def generate(self, rng, tier, profile):
         big = tier == "thorough"
-        opts = specmod.merge_opts(depth=4 if big else 3, max_nodes=14 if big else 9, max_coll=2, max_num=4)
+        opts = specmod.merge_opts(depth=4 if big else 3, max_nodes=14 if big else 9, max_coll=2, max_num=4, big_bins=0.06)
         sp = specmod.gen_spec(rng.fork("tree"), opts)
         crit = specmod.critical_values(sp)
         d = rng.fork("data")
@@ -454,6 +463,8 @@ class C10(Scenario):
                 # nothing can be demanded of operands that were reloaded from them
                 w.bump("probe_mismatch_invisible_after_reload")
                 continue
+            if form == "add_ap" and case["p_fill"] and case["acc_fill"] and self._under_empty_sparse(sp, st["what"], da):
+                self._absorb_then_reject(case, w, R, si, st, sp, m)
             units += 1
             w.bump("fault_misdelivery")
             if "/" in st["what"]:
@@ -469,6 +480,39 @@ class C10(Scenario):
             self._attempt(w, R, si, form, acc, p, da, dp, self._site(sp, st["what"]), st["what"].split("@")[0], st["what"], sp["p"], m["p"])
         R["nontrivial"] = nontrivial
         R["units"] = units
+
+    def _absorb_then_reject(self, case, w, R, si, st, sp, m):
+        """An accumulator that came back from JSON while it was still empty only knows the *names* of its content types:
+        it may legitimately absorb the foreign partial (the difference is invisible then).  From that moment on its bins
+        say what it holds, and a partner of the original specification is the one that has to be rejected."""
+        import histogrammar as hg
+
+        def make():
+            # all live partials of the job descend from one prototype through zero(), so they share its value templates
+            proto = self._make(w, sp, case["acc_fill"], None, si)
+            pl = self._make(w, m, case["p_fill"], None, si)
+            if proto is None or pl is None:
+                return None
+            x = hg.Factory.fromJson(json.loads(json.dumps(proto.zero().toJson())))
+            x += proto.zero()                              # an empty live partial of the original specification
+            x += hg.Factory.fromJson(json.loads(json.dumps(pl.toJson())))  # the foreign partial, reloaded
+            return x, proto
+
+        for f2 in FORMS:
+            o = call(make)
+            if o.ok and o.value is not None:
+                o.value, partner = o.value
+            else:
+                partner = None
+            if not o.ok or o.value is None or partner is None:
+                w.bump("probe_absorb_not_possible")
+                return
+            x = o.value
+            dx, dq = observe.observe(x), observe.observe(partner)
+            if not visible_mismatch(dx["type"], dx["data"], dq["type"], dq["data"]):
+                return
+            w.bump("probe_absorbed_then_original_partner")
+            self._attempt(w, R, si, f2, x, partner, dx, dq, self._site(sp, st["what"]), "absorbed:" + st["what"].split("@")[0], st["what"], sp["p"], sp["p"])
 
     def _attempt(self, w, R, si, form, acc, p, da, dp, site, kind, what, root_a, root_p):
         if True:
